@@ -2,7 +2,8 @@
 
    Go code:  common/object/id_object.go          NewTileXYZ (SetHZoom / SetVZoom reject zooms outside 0..35 since ac7b3a2), accessors
              transform/convert_quadkey_and_Vertical_id.go
-               ConvertTileXYZsToExtendedSpatialIDs   per tile: extendedSpatialIDCheckZoom(hZoom, outputVZoom), ConvertAltitudekeyToMinMaxZ
+               ConvertTileXYZsToExtendedSpatialIDs   extendedSpatialIDCheckZoom(0, outputVZoom) before the loop (322d7d5), then
+                                                     per tile: extendedSpatialIDCheckZoom(hZoom, outputVZoom), ConvertAltitudekeyToMinMaxZ
                                                      (z, vZoom, outputVZoom, zBaseExponent, zBaseOffset), `for z := zMin; z <= zMax; z++`
                                                      inserting (hZoom, x, y, outputVZoom, z) into a map keyed by the ID value (this is the
                                                      de-duplication); the first failing tile ends the call with `return nil, err`;
@@ -54,9 +55,21 @@ Fixpoint tiles_collect (E O outV : Z) (l : list tile) : result (list eid) :=
               end
   end.
 
-(* ConvertTileXYZsToExtendedSpatialIDs(request, zBaseExponent, zBaseOffset, outputVZoom): the keys of the map *)
+(* equality of map keys (ID values). Same relation as Ids.eid_eqb, the vertical index compared first: executed on thousands of IDs that
+   share their footprint, where the first four fields never decide *)
+Definition eid_eqf (a b : eid) : bool := (ef a =? ef b) && eid_eqb a b.
+Lemma eid_eqf_spec a b : reflect (a = b) (eid_eqf a b).
+Proof.
+  unfold eid_eqf. destruct (eid_eqb_spec a b) as [->|N].
+  - rewrite Z.eqb_refl. now constructor.
+  - rewrite andb_false_r. now constructor.
+Qed.
+
+(* ConvertTileXYZsToExtendedSpatialIDs(request, zBaseExponent, zBaseOffset, outputVZoom): the output vertical zoom is checked before
+   the loop (since 322d7d5: also for an empty request); the result is the keys of the map *)
 Definition tiles_to_eids (l : list tile) (E O outV : Z) : result (list eid) :=
-  match tiles_collect E O outV l with Err => Err | Ok a => Ok (nodupb eid_eqb a) end.
+  if negb (ext_check_zoom 0 outV) then Err
+  else match tiles_collect E O outV l with Err => Err | Ok a => Ok (nodupb eid_eqf a) end.
 
 (* ConvertTileXYZsToSpatialIDs: every extended ID expanded, results appended in turn *)
 Definition tiles_to_sids (l : list tile) (E O outV : Z) : result (list string) :=
@@ -86,6 +99,10 @@ Proof. intros H. apply new_tile_spec. lia. Qed.
 
 Lemma ext_check_zoom_spec h v : ext_check_zoom h v = true <-> 0 <= h <= 35 /\ 0 <= v <= 35.
 Proof. unfold ext_check_zoom. rewrite !andb_true_iff, !Z.leb_le. tauto. Qed.
+Lemma ext_check_zoom_0 v : ext_check_zoom 0 v = true <-> 0 <= v <= 35.
+Proof. rewrite ext_check_zoom_spec. lia. Qed.
+Lemma ext_check_zoom_weaken h v : ext_check_zoom h v = true -> ext_check_zoom 0 v = true.
+Proof. rewrite ext_check_zoom_spec, ext_check_zoom_0. tauto. Qed.
 
 (* =====================================================================================================================
    3. Structure of the result: membership, all-or-nothing, no duplicates
@@ -149,14 +166,21 @@ Proof.
     + split; [|reflexivity]. intros _. exists t. split; [now left|exact Hb].
 Qed.
 
+Lemma tiles_to_eids_Ok_inv l E O outV r : tiles_to_eids l E O outV = Ok r ->
+  0 <= outV <= 35 /\ exists a, tiles_collect E O outV l = Ok a /\ r = nodupb eid_eqf a.
+Proof.
+  unfold tiles_to_eids. destruct (ext_check_zoom 0 outV) eqn:Z; cbn [negb]; [|discriminate]. apply ext_check_zoom_0 in Z.
+  destruct (tiles_collect E O outV l) as [a|]; [|discriminate]. intros [= <-]. eauto.
+Qed.
+
 (* MEMBERSHIP: the result consists exactly of the IDs that stem from some tile of the request — hZoom, x, y of that tile untouched,
    vertical zoom as requested, vertical index in that tile's C12 range *)
 Theorem tiles_to_eids_members l E O outV r : tiles_to_eids l E O outV = Ok r ->
   forall j, In j r <-> exists t, In t l /\ from_tile E O outV t j.
 Proof.
-  unfold tiles_to_eids. destruct (tiles_collect E O outV l) as [a|] eqn:Ha; [|discriminate]. intros [= <-] j.
+  intros H j. apply tiles_to_eids_Ok_inv in H. destruct H as (_ & a & Ha & ->).
   apply tiles_collect_Ok in Ha. destruct Ha as [_ ->].
-  rewrite (nodupb_In eid_eqb eid_eqb_spec), in_flat_map. split; intros (t & Hin & H); exists t; (split; [exact Hin|]); now apply tile_out_In.
+  rewrite (nodupb_In eid_eqf eid_eqf_spec), in_flat_map. split; intros (t & Hin & H); exists t; (split; [exact Hin|]); now apply tile_out_In.
 Qed.
 
 (* every result keeps the footprint of a tile of the request and has the requested vertical zoom *)
@@ -170,24 +194,31 @@ Qed.
 (* no ID twice, whatever the tiles *)
 Theorem tiles_to_eids_NoDup l E O outV r : tiles_to_eids l E O outV = Ok r -> NoDup r.
 Proof.
-  unfold tiles_to_eids. destruct (tiles_collect E O outV l) as [a|]; [|discriminate]. intros [= <-]. apply (nodupb_NoDup eid_eqb eid_eqb_spec).
+  intros H. apply tiles_to_eids_Ok_inv in H. destruct H as (_ & a & _ & ->). apply (nodupb_NoDup eid_eqf eid_eqf_spec).
 Qed.
 
-(* ALL OR NOTHING: an error iff some tile is rejected (whatever its position in the request); then nothing is returned *)
+(* ALL OR NOTHING: an error iff the requested vertical zoom is outside 0..35 (for EVERY request, the empty one included) or some tile is
+   rejected (whatever its position in the request); then nothing is returned *)
 Theorem tiles_to_eids_err_iff l E O outV :
-  tiles_to_eids l E O outV = Err <-> exists t, In t l /\ tile_rejected E O outV t.
+  tiles_to_eids l E O outV = Err <-> ~ (0 <= outV <= 35) \/ exists t, In t l /\ tile_rejected E O outV t.
 Proof.
-  unfold tiles_to_eids. destruct (tiles_collect E O outV l) as [a|] eqn:Ha.
-  - split; [discriminate|]. intros (t & Hin & Hr). apply tile_ids_Err in Hr.
+  unfold tiles_to_eids. destruct (ext_check_zoom 0 outV) eqn:Z; cbn [negb].
+  2:{ split; [|reflexivity]. intros _. left. intros N. apply ext_check_zoom_0 in N. congruence. }
+  apply ext_check_zoom_0 in Z. destruct (tiles_collect E O outV l) as [a|] eqn:Ha.
+  - split; [discriminate|]. intros [N|(t & Hin & Hr)]; [contradiction|]. apply tile_ids_Err in Hr.
     assert (X : tiles_collect E O outV l = Err) by (apply tiles_collect_Err; eauto). congruence.
-  - split; [|reflexivity]. intros _. apply tiles_collect_Err in Ha. destruct Ha as (t & Hin & He). exists t. split; [exact Hin|]. now apply tile_ids_Err.
+  - split; [|reflexivity]. intros _. right. apply tiles_collect_Err in Ha. destruct Ha as (t & Hin & He). exists t. split; [exact Hin|]. now apply tile_ids_Err.
 Qed.
+Corollary tiles_to_eids_bad_output_zoom l E O outV : ~ (0 <= outV <= 35) -> tiles_to_eids l E O outV = Err.
+Proof. intros N. apply tiles_to_eids_err_iff. now left. Qed.
+Corollary tiles_to_eids_empty E O outV : tiles_to_eids [] E O outV = if ext_check_zoom 0 outV then Ok [] else Err.
+Proof. unfold tiles_to_eids. destruct (ext_check_zoom 0 outV); reflexivity. Qed.
 (* ... and when it succeeds every tile was accepted and its COMPLETE range is in the result *)
 Theorem tiles_to_eids_complete l E O outV r t : tiles_to_eids l E O outV = Ok r -> In t l ->
   exists mn mx, tile_accepted E O outV t mn mx /\ forall f, mn <= f <= mx -> In (mk (th t) (tx t) (ty t) outV f) r.
 Proof.
   intros H Hin. pose proof (tiles_to_eids_members _ _ _ _ _ H) as M.
-  unfold tiles_to_eids in H. destruct (tiles_collect E O outV l) as [a|] eqn:Ha; [|discriminate].
+  apply tiles_to_eids_Ok_inv in H. destruct H as (_ & a & Ha & _).
   apply tiles_collect_Ok in Ha. destruct Ha as [Hall _]. destruct (Hall t Hin) as (b & Hb).
   apply tile_ids_Ok in Hb. destruct Hb as (mn & mx & Hacc & _). exists mn, mx. split; [exact Hacc|].
   intros f Hf. apply M. exists t. split; [exact Hin|]. exists mn, mx. split; [exact Hacc|]. cbn. repeat split; try reflexivity; lia.
@@ -202,9 +233,11 @@ Theorem tiles_to_eids_single t E O outV :
     end
   else Err.
 Proof.
-  unfold tiles_to_eids. cbn [tiles_collect]. unfold tile_ids. destruct (ext_check_zoom (th t) outV); cbn [negb]; [|reflexivity].
+  unfold tiles_to_eids. cbn [tiles_collect]. unfold tile_ids. destruct (ext_check_zoom (th t) outV) eqn:Z; cbn [negb].
+  2:{ destruct (ext_check_zoom 0 outV); reflexivity. }
+  rewrite (ext_check_zoom_weaken _ _ Z). cbn [negb].
   destruct (key2z (tz t) (tv t) outV E O) as [[mn mx]|]; [|reflexivity]. rewrite app_nil_r. f_equal.
-  apply (nodupb_id eid_eqb eid_eqb_spec). apply NoDup_map_in; [|apply zrange_NoDup]. intros a b _ _ [= ->]. reflexivity.
+  apply (nodupb_id eid_eqf eid_eqf_spec). apply NoDup_map_in; [|apply zrange_NoDup]. intros a b _ _ [= ->]. reflexivity.
 Qed.
 
 (* the vertical indices returned for the footprint and zoom of tile t contain the whole C12 range of t and nothing outside the ranges
@@ -232,10 +265,14 @@ Proof.
   - apply NoDup_Permutation; [eapply tiles_to_eids_NoDup; eauto|eapply tiles_to_eids_NoDup; eauto|].
     intros j. rewrite (tiles_to_eids_members _ _ _ _ _ H1), (tiles_to_eids_members _ _ _ _ _ H2).
     split; intros (t & Hin & Hf); exists t; (split; [now apply Hs|exact Hf]).
-  - apply tiles_to_eids_err_iff in H2. destruct H2 as (t & Hin & Hr).
-    assert (X : tiles_to_eids l1 E O outV = Err) by (apply tiles_to_eids_err_iff; exists t; split; [now apply Hs|exact Hr]). congruence.
-  - apply tiles_to_eids_err_iff in H1. destruct H1 as (t & Hin & Hr).
-    assert (X : tiles_to_eids l2 E O outV = Err) by (apply tiles_to_eids_err_iff; exists t; split; [now apply Hs|exact Hr]). congruence.
+  - apply tiles_to_eids_err_iff in H2.
+    assert (X : tiles_to_eids l1 E O outV = Err).
+    { apply tiles_to_eids_err_iff. destruct H2 as [N|(t & Hin & Hr)]; [now left|right]. exists t. split; [now apply Hs|exact Hr]. }
+    congruence.
+  - apply tiles_to_eids_err_iff in H1.
+    assert (X : tiles_to_eids l2 E O outV = Err).
+    { apply tiles_to_eids_err_iff. destruct H1 as [N|(t & Hin & Hr)]; [now left|right]. exists t. split; [now apply Hs|exact Hr]. }
+    congruence.
   - exact I.
 Qed.
 Corollary tiles_to_eids_permutation l1 l2 E O outV : Permutation l1 l2 ->
@@ -451,9 +488,12 @@ Proof. vm_compute. reflexivity. Qed.
 Example same_z_other_vzoom : tiles_to_eids [mkt 3 1 2 25 1; mkt 3 1 2 24 1] 25 0 25 = Ok [mk 3 1 2 25 1; mk 3 1 2 25 2; mk 3 1 2 25 3].
 Proof. vm_compute. reflexivity. Qed.
 (* ... and a z that exists at vZoom 3 but not at vZoom 2 fails the whole call, also as the last tile *)
-Example same_z_invalid_at_other_vzoom : tiles_to_eids [mkt 3 1 2 3 5; mkt 3 1 2 2 5] 25 0 25 = Err.
-Proof. vm_compute. reflexivity. Qed.
+Example same_z_invalid_at_other_vzoom :
+  tiles_to_eids [mkt 3 1 2 3 5] 25 0 3 = Ok [mk 3 1 2 3 5] /\ tiles_to_eids [mkt 3 1 2 3 5; mkt 3 1 2 2 5] 25 0 3 = Err.
+Proof. vm_compute. split; reflexivity. Qed.
 (* overlapping ranges of adjacent tiles are merged without repetition *)
+Example empty_request_bad_zoom : tiles_to_eids [] 25 0 36 = Err /\ tiles_to_eids [] 25 0 (-1) = Err /\ tiles_to_eids [] 25 0 35 = Ok [].
+Proof. vm_compute. repeat split; reflexivity. Qed.
 Example overlapping_tiles : tiles_to_eids [mkt 1 0 1 25 0; mkt 1 0 1 25 1; mkt 1 0 1 24 0] 25 0 25 = Ok [mk 1 0 1 25 0; mk 1 0 1 25 1].
 Proof. vm_compute. reflexivity. Qed.
 Example spatial_variant_example : tiles_to_sids [mkt 2 1 3 25 4] 25 0 3 = Ok ["3/0/2/6"; "3/0/2/7"; "3/0/3/6"; "3/0/3/7"]%string.
